@@ -150,7 +150,7 @@ impl RtpHeader {
                     }
                     offset += len;
                 }
-            } else if ext.profile == 0x1000 {
+            } else if ext.profile & 0xFFF0 == 0x1000 {
                 let mut offset = 0;
                 while offset < ext.data.len() {
                     let ext_id = ext.data[offset];
